@@ -69,7 +69,17 @@ StepEvent(ev, n) ==
   LET o2   == ApplyDelta(obs, ev.delta)
       sch2 == IF "schema" \in DOMAIN ev THEN ev.schema ELSE sch
   IN
-  IF ev.k = "F" THEN
+  IF ev.k = "P" THEN
+    \* A sibling engine (reopened C07 / rebuilt from scratch C05 / peer process C30) compared with this
+    \* one: the document does not advance; the sibling must report the same data, and quietly.
+    /\ obs' = obs
+    /\ mdl' = mdl
+    /\ sch' = sch
+    /\ snaps' = Append(snaps, obs)
+    /\ verdict' = verdict
+         \o Check(DeltaDom(ev.delta) = {}, n, ev.clause, DeltaDom(ev.delta))
+         \o (IF ev.qclause # "" THEN Check(Len(ev.stored) = 0, n, ev.qclause, Touched(ev.stored)) ELSE <<>>)
+  ELSE IF ev.k = "F" THEN
     \* A call that raised (C04): nothing may have changed, the schema is the metadata's.
     /\ obs' = o2
     /\ mdl' = Resync(mdl, o2, DeltaDom(ev.delta))
